@@ -31,7 +31,7 @@ CACHE = [('operator_dict.py', 'OperatorDict', '__getitem__'), ('operator_dict.py
          ('operator_dict.py', 'Registry', '__call__'), ('codegen.py', None, 'do_compile')]
 POLY = [('polynomial.py', None, 'compare')] + \
        [('polynomial.py', 'Polynomial', m) for m in ('__init__', 'fromname', '__eq__', '__add__', '__mul__', '__neg__', '__pos__', '__sub__',
-                                                     '__rsub__', '__pow__', '__bool__', '__len__', 'tosympy')] + \
+                                                     '__rsub__', '__pow__', '__bool__', '__len__', 'tosympy', '__truediv__')] + \
        [('polynomial.py', 'RationalPolynomial', m) for m in ('__init__', 'fromname', '__add__', '__mul__', '__neg__', '__sub__', '__rsub__',
                                                              '__truediv__', '__rtruediv__', 'inv', '__pow__', '__eq__', '__bool__', 'tosympy')]
 PINS = {
